@@ -439,12 +439,12 @@ static std::string kind(const Basic &e)
     if (is_a<ImmutableDenseMatrix>(e)) {
         const ImmutableDenseMatrix &m = down_cast<const ImmutableDenseMatrix &>(e);
         if (m.nrows() != m.ncols())
-            t += "-nonsquare";
+            t += "-" + std::to_string(m.nrows()) + "x" + std::to_string(m.ncols());
     }
     if (is_a<ZeroMatrix>(e)) {
         const ZeroMatrix &z = down_cast<const ZeroMatrix &>(e);
         if (!eq(*z.nrows(), *z.ncols()))
-            t += "-nonsquare";
+            t += "-" + sstr(z.nrows()) + "x" + sstr(z.ncols());
     }
     if (is_a<MatrixAdd>(e) || is_a<MatrixMul>(e) || is_a<HadamardProduct>(e) || is_a<Transpose>(e) || is_a<ConjugateMatrix>(e)) {
         t += "[";
@@ -830,7 +830,7 @@ static void check_transition(Ctx &c, int op, const std::vector<int> &ix)
     }
     c.count(K_VALUE_JUDGED);
     if (!(got == want)) {
-        c.violation(std::string("value:") + OPN[op] + "(" + ks + ")",
+        c.violation(std::string(got.r != want.r || got.c != want.c ? "shape:" : "value:") + OPN[op] + "(" + ks + ")",
                     recipe + " returned " + sstr(r) + " [" + key(*r) + "] with dense value " + dmstr(got) + " but the operation on the operand values gives "
                         + dmstr(want));
         return;
